@@ -46,6 +46,7 @@ Enabled(s, e) ==
     [] e.c = "scandrop"  -> s.scan.pc = "drop"
     [] e.c = "scanload"  -> s.scan.pc = "load"
     [] e.c = "snap"      -> e.p \in DOMAIN s.srch /\ s.srch[e.p].pc # "run"
+    [] e.c = "read"      -> e.p \in DOMAIN s.srch /\ s.srch[e.p].pc = "run"
     [] e.c = "finish"    -> e.p \in DOMAIN s.srch /\ s.srch[e.p].pc = "run"
     [] e.c = "gc"        -> TRUE
     [] OTHER             -> FALSE
@@ -61,6 +62,7 @@ Do(s, e, fx) ==
     [] e.c = "scandrop"  -> IF fixGap THEN ScanDropNoop(s) ELSE ScanDrop(s)
     [] e.c = "scanload"  -> IF fixGap THEN ScanEndG(LoadAll(ScanDropG(s)), fix) ELSE ScanEnd(LoadAll(s), fix)
     [] e.c = "snap"      -> Snapshot(s, e.p)
+    [] e.c = "read"      -> ReadAll(s, e.p)
     [] e.c = "finish"    -> SearchAll(s, e.p)
     [] e.c = "gc"        -> s
 \* afterwards everything the collector may have closed by now counts as (possibly) closed
